@@ -105,3 +105,73 @@ def sample(rng, lst, k):
 
 def rng_for(seed, salt):
     return random.Random("%s-%s" % (seed, salt))
+
+
+# ---- ISO 4217: own parse of the bundled table (regex over the raw text) ----
+_ISO = None
+
+
+def iso_table():
+    """code -> (name, minor_units) for entries with numeric minor units; first name wins"""
+    global _ISO
+    if _ISO is None:
+        import os
+        import re
+        import quantity.money as qm
+        path = os.path.join(os.path.dirname(qm.__file__), 'iso_4217.xml')
+        txt = open(path, encoding='utf-8').read()
+        out = {}
+        for ent in re.findall(r'<CcyNtry>(.*?)</CcyNtry>', txt, re.S):
+            def g(tag):
+                m = re.search(r'<%s(?:\s[^>]*)?>(.*?)</%s>' % (tag, tag), ent, re.S)
+                return m.group(1) if m else None
+            code, name, minor, num = g('Ccy'), g('CcyNm'), g('CcyMnrUnts'), g('CcyNbr')
+            if code and minor is not None and minor.isdigit() and num and num.isdigit():
+                name = name.replace('&amp;', '&').replace('&apos;', "'").replace('&quot;', '"')
+                out.setdefault(code, (name, int(minor)))
+        _ISO = out
+    return _ISO
+
+
+def expect_raises(E, fn, exc_cls, label, info=None, not_cls=None):
+    """obligation: fn() raises exc_cls (and not the more specific not_cls)"""
+    try:
+        r = fn()
+    except exc_cls as e:
+        if not_cls is not None and isinstance(e, not_cls):
+            E.fail(label, key='%s:wrong-exception:%s' % (label, type(e).__name__), info=info)
+        else:
+            E.ok(label)
+    except Exception as e:
+        E.fail(label, key='%s:wrong-exception:%s' % (label, type(e).__name__), info=info)
+    else:
+        E.fail(label, key='%s:returned-value' % label, info=(info or []) + [repr(r)[:80]])
+
+
+def mode(name):
+    from decimalfp import ROUNDING
+    return getattr(ROUNDING, name)
+
+
+def set_default_mode(name):
+    import decimalfp
+    decimalfp.set_dflt_rounding_mode(mode(name))
+
+
+MODES = ['ROUND_05UP', 'ROUND_CEILING', 'ROUND_DOWN', 'ROUND_FLOOR', 'ROUND_HALF_DOWN',
+         'ROUND_HALF_EVEN', 'ROUND_HALF_UP', 'ROUND_UP']
+
+
+def mk_cls(name, **kw):
+    from quantity import Quantity, QuantityMeta
+    return QuantityMeta(name, (Quantity,), {}, **kw)
+
+
+def num(s):
+    """'1/3' / '0.25' / '5' -> Decimal when exactly representable else Fraction"""
+    from decimalfp import Decimal
+    f = Fraction(s)
+    try:
+        return Decimal(f)
+    except ValueError:
+        return f
